@@ -162,7 +162,9 @@ def equivalent(r1, r2, alphabet=None):
                     groups.setdefault(atom, []).append(idx)
             by_sig = {}
             for atom, idxs in groups.items():
-                by_sig.setdefault(tuple(idxs), atom)
+                sig = tuple(idxs)
+                if sig not in by_sig or str(atom) < str(by_sig[sig]):
+                    by_sig[sig] = atom       # deterministic representative (set iteration order depends on the hash seed)
             for idxs, atom in sorted(by_sig.items(), key=lambda kv: str(kv[1])):
                 ta = set(trans[i][2] for i in idxs if trans[i][1] == 0)
                 tb = set(trans[i][2] for i in idxs if trans[i][1] == 1)
